@@ -363,11 +363,28 @@ func (p *Parser) parseMergeStatement() (ast.Statement, error) {
 	p.advance() // Consume USING
 
 	// Parse source table (could be a table or subquery)
-	sourceRef, err := p.parseTableReference()
-	if err != nil {
-		return nil, goerrors.WrapError(goerrors.ErrCodeInvalidSyntax, "error parsing MERGE source", models.Location{}, "", err)
+	if p.isType(models.TokenTypeLParen) {
+		p.advance() // Consume (
+		subquery, err := p.parseSubquery()
+		if err != nil {
+			return nil, goerrors.WrapError(goerrors.ErrCodeInvalidSyntax, "error parsing MERGE source", models.Location{}, "", err)
+		}
+		selectStmt, ok := subquery.(*ast.SelectStatement)
+		if !ok {
+			return nil, p.expectedError("SELECT statement as MERGE source")
+		}
+		if !p.isType(models.TokenTypeRParen) {
+			return nil, p.expectedError(")")
+		}
+		p.advance() // Consume )
+		stmt.SourceTable = ast.TableReference{Subquery: selectStmt}
+	} else {
+		sourceRef, err := p.parseTableReference()
+		if err != nil {
+			return nil, goerrors.WrapError(goerrors.ErrCodeInvalidSyntax, "error parsing MERGE source", models.Location{}, "", err)
+		}
+		stmt.SourceTable = *sourceRef
 	}
-	stmt.SourceTable = *sourceRef
 
 	// Parse optional source alias
 	if p.isType(models.TokenTypeAs) {
